@@ -39,7 +39,7 @@ func famResult(quick bool) []*prog.Case {
 	for _, et := range []tv{strT, i32T, structT} {
 		for _, ot := range tvs {
 			for _, outcome := range []string{"ok", "err"} {
-				for _, form := range []string{"fallback", "handler+fallback", "handler-returns", "propagate2"} {
+				for _, form := range []string{"fallback", "handler+fallback", "handler-returns", "propagate2", "handler-if+fallback", "handler-loop+fallback", "handler-arrstore+fallback", "handler-if-returns"} {
 					et, ot, outcome, form := et, ot, outcome, form
 					out = append(out, mk(fmt.Sprintf("C01/result/%s!%s/%s/%s", et.name, ot.name, outcome, form), func(k K) *fl.Program {
 						p := &fl.Program{}
@@ -60,6 +60,29 @@ func famResult(quick bool) []*prog.Case {
 							h := append([]fl.Stmt{fl.P(fl.S("handler"))}, et.show(fl.V("e"))...)
 							body = append(body, &fl.Let{Name: "v", Init: &fl.Catch{X: call, ErrName: "e", Handler: h, Fallback: ot.val(k, p, O, 3)}})
 							body = append(body, ot.show(fl.V("v"))...)
+						case "handler-if+fallback", "handler-loop+fallback", "handler-arrstore+fallback":
+							// handlers that open further basic blocks before the fallback value is produced
+							h := []fl.Stmt{fl.P(fl.S("handler"))}
+							body = append(body, &fl.Let{Name: "n", T: fl.I32, Init: fl.L(fl.I32, 2)})
+							switch form {
+							case "handler-if+fallback":
+								h = append(h, &fl.If{Cond: fl.B(">", fl.V("n"), fl.L(fl.I32, 1)), Then: et.show(fl.V("e")), Else: []fl.Stmt{fl.P(fl.S("small"))}})
+							case "handler-loop+fallback":
+								h = append(h, &fl.While{Cond: fl.B(">", fl.V("n"), fl.L(fl.I32, 0)), Body: append(et.show(fl.V("e")), &fl.OpAssign{Op: "-=", LHS: fl.V("n"), RHS: fl.L(fl.I32, 1)})})
+							case "handler-arrstore+fallback":
+								h = append(h, &fl.Let{Name: "a", T: fl.TArr{Elem: fl.I32, N: 2}, Init: &fl.ArrLit{Elems: []fl.Expr{fl.L(fl.I32, 1), fl.L(fl.I32, 2)}}},
+									&fl.Assign{LHS: &fl.Index{X: fl.V("a"), I: fl.L(fl.I32, 1)}, RHS: fl.V("n")}, fl.P(&fl.Index{X: fl.V("a"), I: fl.L(fl.I32, 1)}))
+								h = append(h, et.show(fl.V("e"))...)
+							}
+							body = append(body, &fl.Let{Name: "v", Init: &fl.Catch{X: call, ErrName: "e", Handler: h, Fallback: ot.val(k, p, O, 3)}})
+							body = append(body, ot.show(fl.V("v"))...)
+							body = append(body, fl.P(fl.V("n")))
+						case "handler-if-returns":
+							body = append(body, &fl.Let{Name: "n", T: fl.I32, Init: fl.L(fl.I32, 2)})
+							h := []fl.Stmt{fl.P(fl.S("handler")), &fl.If{Cond: fl.B(">", fl.V("n"), fl.L(fl.I32, 1)), Then: append(et.show(fl.V("e")), &fl.Return{}), Else: []fl.Stmt{fl.P(fl.S("small")), &fl.Return{}}}}
+							body = append(body, &fl.Let{Name: "v", Init: &fl.Catch{X: call, ErrName: "e", Handler: h}})
+							body = append(body, ot.show(fl.V("v"))...)
+							body = append(body, fl.P(fl.S("after")))
 						case "handler-returns":
 							h := append(append([]fl.Stmt{fl.P(fl.S("handler"))}, et.show(fl.V("e"))...), &fl.Return{})
 							body = append(body, &fl.Let{Name: "v", Init: &fl.Catch{X: call, ErrName: "e", Handler: h}})
